@@ -1,0 +1,30 @@
+//go:build verif
+
+package sftp
+
+import (
+	"bytes"
+	"os"
+)
+
+// VerifEncAOpenFileInfo returns the bytes sendPacket writes for a codec-A OPEN / SETSTAT / FSETSTAT request whose attributes are
+// handed over as an os.FileInfo (the arm of the attribute marshalling that takes the values from fileStatFromInfo and the field
+// selection from the packet's own attribute flags).
+func VerifEncAOpenFileInfo(kind string, id uint32, target string, pflags, flags uint32, fi os.FileInfo) ([]byte, error) {
+	var m interface {
+		MarshalBinary() ([]byte, error)
+	}
+	switch kind {
+	case "setstat":
+		m = &sshFxpSetstatPacket{ID: id, Path: target, Flags: flags, Attrs: fi}
+	case "fsetstat":
+		m = &sshFxpFsetstatPacket{ID: id, Handle: target, Flags: flags, Attrs: fi}
+	default:
+		m = &sshFxpOpenPacket{ID: id, Path: target, Pflags: pflags, Flags: flags, Attrs: fi}
+	}
+	var buf bytes.Buffer
+	if err := sendPacket(&buf, m); err != nil {
+		return nil, err
+	}
+	return buf.Bytes(), nil
+}
